@@ -506,7 +506,10 @@ def one_crash(rep, drv, contents, ti, seed, case_dir, flags, cfg, env, call, k, 
     thr = 4096 if env else 10 * 1024 * 1024
     for rel, n in pre_dst.items():
         c = crash.get(rel)
-        owner_touched = rel in touched or any(rel.startswith(t + "/") for t in touched) or any(t.startswith(rel + "/") for t in touched)
+        # (an entry bearing the working-file name of a task that was running is "being written" in C09's sense: the recorded collision
+        #  C05/user-file-named-like-temp removes it — reported by the C05 / C06 checks, not as a crash-safety violation)
+        owner_touched = rel in touched or any(rel.startswith(t + "/") for t in touched) or any(t.startswith(rel + "/") for t in touched) \
+            or (rel.endswith(".sy.tmp") and rel[:-7] in touched)
         if not owner_touched and es.tree_fingerprint({rel: n}) != es.tree_fingerprint({rel: c} if c else {}):
             rep.oracle_fail("C09/untouched-file-damaged", f"{rel} was not being written at the kill but changed", desc)
         if n["k"] == "f" and n["size"] >= thr and tasks.get(rel) == "u" and c is not None and c["k"] == "f":
